@@ -68,6 +68,7 @@ type relayWorld struct {
 	accts   *fixedAccounts
 	bodies  [][]byte
 	fetches atomic.Uint64 // only touched by the construction and by the cfgRefresh role
+	f       faults
 	fetchFn func(context.Context)
 	regFn   func(context.Context)
 
@@ -83,10 +84,14 @@ var (
 func relayServers() []string {
 	relayOnce.Do(func() {
 		viper.SetDefault("timeout", 10*time.Second)
-		for i := 0; i < 2; i++ {
+		for i := 0; i < 3; i++ {
+			status := http.StatusOK
+			if i == 2 {
+				status = http.StatusServiceUnavailable // the third relay is down
+			}
 			srv := httptest.NewServer(http.HandlerFunc(func(w http.ResponseWriter, _ *http.Request) {
 				w.Header().Set("Content-Type", "application/json")
-				w.WriteHeader(http.StatusOK)
+				w.WriteHeader(status)
 				_, _ = w.Write([]byte("{}"))
 			}))
 			relayURLs = append(relayURLs, srv.URL)
@@ -96,8 +101,11 @@ func relayServers() []string {
 }
 
 // Fetch implements majordomo.Service.
-func (w *relayWorld) Fetch(context.Context, string) ([]byte, error) {
+func (w *relayWorld) Fetch(ctx context.Context, _ string) ([]byte, error) {
 	n := w.fetches.Add(1) - 1
+	if !w.constructing.Load() && w.f.hit("fetch-err", callOf(ctx)<<8^n) {
+		return nil, strErr("scripted configuration source failure")
+	}
 	body := w.bodies[n%uint64(len(w.bodies))]
 	if body == nil {
 		return nil, strErr("scripted configuration source failure")
@@ -113,13 +121,18 @@ type relayAccounts struct {
 func (a relayAccounts) ValidatingAccountsForEpoch(ctx context.Context, epoch phase0.Epoch) (map[phase0.ValidatorIndex]e2wtypes.Account, error) {
 	if a.w.constructing.Load() {
 		a.w.accountCalls.Add(1)
+	} else if a.w.f.hit("accounts-err", callOf(ctx)<<8^uint64(epoch)) {
+		return nil, strErr("scripted accounts failure")
 	}
 	return a.fixedAccounts.ValidatingAccountsForEpoch(ctx, epoch)
 }
 
-type relaySigner struct{}
+type relaySigner struct{ f faults }
 
-func (relaySigner) SignValidatorRegistration(context.Context, e2wtypes.Account, *builderapi.VersionedValidatorRegistration) (phase0.BLSSignature, error) {
+func (s relaySigner) SignValidatorRegistration(ctx context.Context, account e2wtypes.Account, _ *builderapi.VersionedValidatorRegistration) (phase0.BLSSignature, error) {
+	if s.f.hit("regsign-err", callOf(ctx)<<8^account.(*fakeAccount).index) {
+		return phase0.BLSSignature{}, strErr("scripted signer failure")
+	}
 	return phase0.BLSSignature{0xc1, 0x7}, nil
 }
 
@@ -186,14 +199,14 @@ func relayBodies(seq uint64) [][]byte {
 	v2a := fmt.Sprintf(`{"version":2,"fee_recipient":"%s","gas_limit":"30000000","relays":{"%s":{"grace":"10"},"%s":{}},
  "proposers":[{"proposer":"%#x","fee_recipient":"%s","relays":{"%s":{"disabled":true},"%s":{"gas_limit":"26000000","min_value":"0.01"}}},{"proposer":"^wallet/acct[bc]$","gas_limit":"25000000"}]}`,
 		fee(0x11), urls[0], urls[1], pubKeyOf(0), fee(0x12), urls[1], urls[0])
-	v2b := fmt.Sprintf(`{"version":2,"fee_recipient":"%s","relays":{"%s":{"gas_limit":"20000000"}},"proposers":[{"proposer":"%#x","reset_relays":true,"relays":{"%s":{"fee_recipient":"%s"}}}]}`,
-		fee(0x21), urls[0], pubKeyOf(4), urls[1], fee(0x22))
+	v2b := fmt.Sprintf(`{"version":2,"fee_recipient":"%s","relays":{"%s":{"gas_limit":"20000000"},"%s":{}},"proposers":[{"proposer":"%#x","reset_relays":true,"relays":{"%s":{"fee_recipient":"%s"}}}]}`,
+		fee(0x21), urls[0], urls[2], pubKeyOf(4), urls[1], fee(0x22))
 	// legacy: neither gas_limit nor builder in the default entry, no gas_limit in a proposer entry
 	v1open := fmt.Sprintf(`{"proposer_config":{"%#x":{"fee_recipient":"%s","builder":{"enabled":true,"relays":["%s"]}},"%#x":{"fee_recipient":"%s"}},"default_config":{"fee_recipient":"%s"}}`,
 		pubKeyOf(1), fee(0x31), urls[0], pubKeyOf(2), fee(0x32), fee(0x33))
 	// legacy: everything spelled out
 	v1full := fmt.Sprintf(`{"proposer_config":{"%#x":{"fee_recipient":"%s","gas_limit":"28000000","builder":{"enabled":true,"grace":"50","relays":["%s","%s"]}}},"default_config":{"fee_recipient":"%s","gas_limit":"29000000","builder":{"enabled":true,"relays":["%s"]}}}`,
-		pubKeyOf(1), fee(0x41), urls[0], urls[1], fee(0x42), urls[1])
+		pubKeyOf(1), fee(0x41), urls[0], urls[2], fee(0x42), urls[1])
 	switch seq {
 	case 0:
 		return [][]byte{[]byte(v2a), []byte(v2b)}
@@ -213,7 +226,7 @@ const relaySeqs = 5
 
 func buildRelay(sc *Scenario) (world, error) {
 	relayServers()
-	w := &relayWorld{sc: sc, accts: newFixedAccounts(relayVals), bodies: relayBodies(sc.P["cfgs"])}
+	w := &relayWorld{sc: sc, accts: newFixedAccounts(relayVals), bodies: relayBodies(sc.P["cfgs"]), f: newFaults(sc.P)}
 	w.clock = newClock(32, 32*10)
 	ctx, cancel := context.WithCancel(context.Background())
 	w.cancel = cancel
@@ -232,7 +245,7 @@ func buildRelay(sc *Scenario) (world, error) {
 		standardrelay.WithAccountsProvider(w.accts),
 		standardrelay.WithValidatorsProvider(relayValidators{}),
 		standardrelay.WithValidatingAccountsProvider(relayAccounts{w.accts, w}),
-		standardrelay.WithValidatorRegistrationSigner(relaySigner{}),
+		standardrelay.WithValidatorRegistrationSigner(relaySigner{w.f}),
 		standardrelay.WithSecondaryValidatorRegistrationsSubmitters([]consensusclient.ValidatorRegistrationsSubmitter{relaySecondary{}}),
 		standardrelay.WithReleaseVersion("verif"),
 		standardrelay.WithBuilderBidProvider(relayBids{}),
@@ -293,8 +306,8 @@ func (w *relayWorld) prepare(int) {
 	}
 }
 
-func (w *relayWorld) run(rep int, _ int, _ *Role, op *Op) {
-	ctx := context.Background()
+func (w *relayWorld) run(rep int, _ int, _ *Role, op *Op, call uint64) {
+	ctx := withCall(context.Background(), call)
 	slot := phase0.Slot(uint64(rep)*4 + op.A%4 + 320)
 	val := op.B % 6
 	switch op.K {
@@ -370,11 +383,13 @@ func init() {
 				gen: rep(1, 2, func(t *rapid.T) Op { return Op{K: "regs", B: rapid.Uint64Range(1, 63).Draw(t, "mask")} })},
 		},
 		params: func(t *rapid.T) map[string]uint64 {
-			return map[string]uint64{
+			p := map[string]uint64{
 				"cfgs":        rapid.Uint64Range(0, relaySeqs-1).Draw(t, "cfgs"),
 				"fresh":       rapid.Uint64Range(0, 1).Draw(t, "fresh"),
 				"fallbackGas": rapid.SampledFrom([]uint64{30000000, 36000000}).Draw(t, "fallbackGas"),
 			}
+			genFaults(t, p)
+			return p
 		},
 		build: buildRelay,
 	})
